@@ -83,4 +83,57 @@ theorem envelopeClause_consistent (S : Nat) (eps : Rat) (kept : List Vec) (r : V
   have := hv g hg
   linarith
 
+/-! ### the "no vector that is nowhere needed" clause, as the driver evaluates it for one kept vector -/
+
+theorem strictNeededOK_sound (n : Nat) (eps : Rat) (G : List Vec) (b k : Vec) (h : strictNeededOK n eps G b k = true) :
+    IsBelief n b ∧ ∀ g ∈ G, dot b g + eps < dot b k := by
+  unfold strictNeededOK at h
+  simp only [Bool.and_eq_true, List.all_eq_true, decide_eq_true_eq] at h
+  exact ⟨(isBeliefB_iff n b).mp h.1, h.2⟩
+
+theorem ite_bad_ne_ok' (c : Prop) [Decidable c] : (if c then Env.bad else Env.undecided) ≠ Env.ok := by
+  split <;> simp
+
+/-- `ok`: the kept vector is strictly needed — at some belief it is more than `epsOk` above every other kept vector -/
+theorem neededClause_ok_sound (S : Nat) (epsOk epsBad : Rat) (others : List Vec) (k : Vec) (c : Option Cert)
+    (h : neededClause S epsOk epsBad others k c = .ok) :
+    ∃ b, IsBelief S b ∧ ∀ g ∈ others, dot b g + epsOk < dot b k := by
+  unfold neededClause at h
+  by_cases hany : (needCands S c).any (fun b => strictNeededOK S epsOk others b k) = true
+  · obtain ⟨b, _, hb⟩ := List.any_eq_true.mp hany
+    exact ⟨b, strictNeededOK_sound S epsOk others b k hb⟩
+  · rw [if_neg hany] at h
+    cases hl : needLam c with
+    | none => simp only [hl] at h; cases h
+    | some l => simp only [hl] at h; exact absurd h (ite_bad_ne_ok' _)
+
+/-- `bad`: the kept vector is nowhere needed — at EVERY belief some other kept vector is within `epsBad` of it or above
+    (`farkasOK_sound`, verbatim) -/
+theorem neededClause_bad_sound (S : Nat) (epsOk epsBad : Rat) (others : List Vec) (k : Vec) (c : Option Cert)
+    (hG : ∀ g ∈ others, g.length = S) (hk : k.length = S)
+    (h : neededClause S epsOk epsBad others k c = .bad) :
+    ∀ b, IsBelief S b → ∃ g ∈ others, dot b k ≤ dot b g + epsBad := by
+  unfold neededClause at h
+  by_cases hany : (needCands S c).any (fun b => strictNeededOK S epsOk others b k) = true
+  · rw [if_pos hany] at h; cases h
+  · rw [if_neg hany] at h
+    cases hl : needLam c with
+    | none => simp only [hl] at h; cases h
+    | some l =>
+      simp only [hl] at h
+      by_cases hf : farkasOK S epsBad others l k = true
+      · exact farkasOK_sound S epsBad others l k hG hk hf
+      · rw [if_neg hf] at h; cases h
+
+/-- with `epsBad ≤ epsOk` the two verdicts exclude each other, whatever certificates are supplied -/
+theorem neededClause_consistent (S : Nat) (epsOk epsBad : Rat) (hle : epsBad ≤ epsOk) (others : List Vec) (k : Vec)
+    (c c' : Option Cert) (hG : ∀ g ∈ others, g.length = S) (hk : k.length = S)
+    (h1 : neededClause S epsOk epsBad others k c = .ok) : neededClause S epsOk epsBad others k c' ≠ .bad := by
+  intro h2
+  obtain ⟨b, hb, hv⟩ := neededClause_ok_sound S epsOk epsBad others k c h1
+  obtain ⟨g, hg, hle'⟩ := neededClause_bad_sound S epsOk epsBad others k c' hG hk h2 b hb
+  have := hv g hg
+  linarith
+
 end AITB.C12Check
+
